@@ -123,7 +123,21 @@ func TestWorker(t *testing.T) {
 	t0 := time.Now()
 	seenV := map[string]bool{}
 	one := func(sc *Scenario, idx int) {
+		re0 := simsync.RaceErrors()
+		if simsync.RaceEnabled {
+			fmt.Fprintf(os.Stderr, "RACE-RUN-BEGIN idx=%d seed=%d\n", idx, sc.Seed)
+		}
 		res, tr, own, cross := runAndCheck(t, pd, sc, nil)
+		if simsync.RaceEnabled {
+			n := simsync.RaceErrors() - re0
+			fmt.Fprintf(os.Stderr, "RACE-RUN-END idx=%d seed=%d reports=%d\n", idx, sc.Seed, n)
+			if n > 0 && replayDir != "" && res.Out != nil {
+				// keep the schedule of every run that produced race reports: the driver
+				// attributes the reports to runs and picks the replay file it needs
+				writeReplay(replayDir+"/race", pd, sc, res.Out.Tape, res, Violation{Prop: pd.ID, Class: "data-race"})
+				out.Stats["runs_with_race_reports"]++
+			}
+		}
 		out.Runs++
 		if res.Out == nil {
 			out.Trouble = append(out.Trouble, fmt.Sprintf("seed %d: no outcome: %s", sc.Seed, res.BubbleErr))
@@ -365,7 +379,13 @@ func TestReplay(t *testing.T) {
 		fmt.Println("TROUBLE unknown property", rp.Property)
 		os.Exit(2)
 	}
+	if simsync.RaceEnabled {
+		fmt.Fprintf(os.Stderr, "RACE-RUN-BEGIN idx=0 seed=%d\n", rp.Seed)
+	}
 	res, _, own, _ := runAndCheck(t, pd, rp.Scenario, rp.Tape)
+	if simsync.RaceEnabled {
+		fmt.Fprintf(os.Stderr, "RACE-RUN-END idx=0 seed=%d reports=0\n", rp.Seed)
+	}
 	if res.Out == nil || res.Out.Trouble != "" {
 		fmt.Println("TROUBLE", res.BubbleErr, res.Out)
 		os.Exit(2)
